@@ -79,7 +79,7 @@ def canon(op, ans):
     """canonical form of an implementation/model answer for the model-vs-implementation comparison"""
     if is_err(ans) or ans is None:
         return ans
-    if op == 80:
+    if op in (80, 81):
         # per-coroutine results: reports canonicalised, page lists kept in order, network graphs as sets
         out = []
         for r in ans:
